@@ -75,8 +75,62 @@ def make_plan(verif_seed: int, prop: str, tier: str, index: int) -> dict:
     return plan
 
 
+_gc_ready = False
+_gc_runs = 0
+
+
+def warmup() -> None:
+    """Initialise both backends once with a program that does not touch asphalt, then move
+    everything to the GC's permanent generation.  Forked workers inherit the warm state."""
+    global _gc_ready
+    import anyio
+    import anyio._backends._asyncio  # noqa: F401
+    import anyio._backends._trio  # noqa: F401
+
+    from .core import Sim, run_sim
+
+    for name in set(x if isinstance(x, str) else None for x in WORLD_OF.values()) | {"components", "ctxlife", "resources"}:
+        if name:
+            importlib.import_module(f"sim.worlds.{name}")
+
+    async def main(sim: Any) -> None:
+        async with anyio.create_task_group() as tg:
+            tg.start_soon(anyio.sleep, 1)
+            with anyio.move_on_after(0.5):
+                await anyio.sleep(2)
+        e = anyio.Event()
+        e.set()
+        await e.wait()
+
+    for be in ("asyncio", "trio"):
+        run_sim(Sim({"backend": be, "sched": {"policy": "uniform", "seed": 1}}), main)
+    gc.disable()
+    gc.collect()
+    gc.freeze()
+    _gc_ready = True
+
+
+
 def execute(plan: dict, **kw: Any) -> dict:
+    """Run one plan.  The cyclic garbage collector never runs *inside* a run (finalizers of
+    garbage left by earlier runs - coroutines, async generators, tasks - would add scheduler
+    steps at allocation-dependent points): it is disabled, everything that exists after
+    import is frozen, and the little that a run leaves behind is collected before the next."""
+    global _gc_ready, _gc_runs
     w = importlib.import_module(f"sim.worlds.{plan['world']}")
+    if not _gc_ready:
+        import anyio._backends._asyncio  # noqa: F401
+        import anyio._backends._trio  # noqa: F401
+
+        gc.disable()
+        _gc_ready = True
+    gc.collect()
+    _gc_runs += 1
+    if _gc_runs in (1, 2, 4, 8, 16) or _gc_runs % 64 == 0:
+        # modules and caches are still being created lazily during the first runs: keep
+        # moving what survived a full collection to the permanent generation so that the
+        # per-run collection only ever looks at the previous run's leftovers
+        gc.freeze()
     return w.execute(plan, **kw)
 
 
@@ -147,8 +201,6 @@ def _chunk(args: tuple) -> dict:
                     out["other_rules"][x["rule"]] += 1
             if len(out["samples"]) < 1 and res["nontrivial"]:
                 out["samples"].append(plan)
-            if index % 200 == 199:
-                gc.collect()
     finally:
         faulthandler.cancel_dump_traceback_later()
     return out
